@@ -20,8 +20,10 @@ def free_port():
 
 
 class Tacd:
-    def __init__(self, workdir, domain, ext, release=False, listener="tcp", source="flag", key_type=None, digest=None, nofile=None):
+    def __init__(self, workdir, domain, ext, release=False, listener="tcp", source="flag", key_type=None, digest=None, nofile=None, daemon=False):
         self.nofile = nofile
+        self.daemon = daemon       # started the way the manual and the shipped hooks do: no -f, the process detaches and writes a pid file
+        self.dpid = None
         self.dir = workdir
         os.makedirs(workdir, exist_ok=True)
         self.release = release
@@ -52,7 +54,13 @@ class Tacd:
             if os.path.exists(self.path):
                 os.unlink(self.path)
             self.addr = "unix:" + self.path
-        cmd = [TACD_RELEASE if release else TACD_DEBUG, "-f", "--no-pid-file", "--listen", self.addr, "--log-stderr", "--log-level", "debug"]
+        if self.daemon:
+            self.pidfile = os.path.join(workdir, "tacd.pid")
+            if os.path.exists(self.pidfile):
+                os.unlink(self.pidfile)
+            cmd = [TACD_RELEASE if release else TACD_DEBUG, "--pid-file", self.pidfile, "--listen", self.addr]
+        else:
+            cmd = [TACD_RELEASE if release else TACD_DEBUG, "-f", "--no-pid-file", "--listen", self.addr, "--log-stderr", "--log-level", "debug"]
         stdin = None
         if source == "flag":
             cmd += ["--domain", domain, "--acme-ext", ext]
@@ -88,9 +96,21 @@ class Tacd:
         s.connect(self.path)
         return s
 
+    def _daemon_pid(self):
+        try:
+            return int(open(self.pidfile).read().strip())
+        except (OSError, ValueError):
+            return None
+
     def _wait_listening(self):
         for _ in range(200):
-            if self.p.poll() is not None:
+            if self.daemon:
+                # the launching process ends at once (exit 0 = detached); the service is the process named by the pid file
+                rc = self.p.poll()
+                if rc not in (None, 0):
+                    return False
+                self.dpid = self._daemon_pid() or self.dpid
+            elif self.p.poll() is not None:
                 return False
             try:
                 if self.listener == "unix" and not os.path.exists(self.path):
@@ -104,12 +124,23 @@ class Tacd:
 
     def alive(self):
         time.sleep(0.05)
+        if self.daemon:
+            try:
+                os.kill(self.dpid or -1, 0)
+                return self.dpid is not None
+            except OSError:
+                return False
         return self.p.poll() is None
 
     def exit_status(self):
         return self.p.poll()
 
     def stop(self):
+        if self.daemon and self.dpid:
+            try:
+                os.kill(self.dpid, 9)
+            except OSError:
+                pass
         if self.p.poll() is None:
             self.p.kill()
         try:
